@@ -325,6 +325,12 @@ class AsyncSrc:
     def __aiter__(self) -> "AsyncSrc":
         return self
 
+    def __iter__(self) -> Any:
+        # the object offers the synchronous protocol TOO (a cursor / stream usable from both worlds) and refuses it here:
+        # it is an asynchronous iterator, and that is how asynchronous tools treat it - in every respect
+        CTX.foreign.append(f"the asynchronous iterator {self.st.sid} was iterated through its synchronous protocol")
+        raise RuntimeError("synchronous iteration in an asynchronous context")
+
     async def __anext__(self) -> Any:
         st = self.st
         st.active += 1
@@ -371,6 +377,22 @@ class AsyncSrcBare:
 
 class AsyncSrcFull(AsyncSrc):
     """Class based async iterator with aclose/asend/athrow."""
+
+    async def asend(self, value: Any) -> Any:
+        CTX.ev("asend", self.st.sid)
+        return await self.__anext__()
+
+    async def athrow(self, typ: Any, val: Any = None, tb: Any = None) -> Any:
+        CTX.ev("athrow", self.st.sid)
+        self.st.closed += 1
+        if isinstance(typ, BaseException):
+            raise typ
+        raise typ()
+
+
+class AsyncSrcBareFull(AsyncSrcBare):
+    """A generator-LIKE class based async iterator: ``asend`` and ``athrow``, but NO ``aclose`` - nothing a holder could
+    call to close it; whoever throws a GeneratorExit into it has ended it all the same (counted as a close)."""
 
     async def asend(self, value: Any) -> Any:
         CTX.ev("asend", self.st.sid)
@@ -656,7 +678,7 @@ async def _async_gen(st: SrcState):
 
 FLAVOURS_SYNC = ("list", "tuple", "getitem_seq", "sync_iter", "sync_gen", "sync_iterable", "tuple_sub", "list_sub")
 FLAVOURS_ASYNC = ("async_gen", "async_class", "async_class_bare", "async_class_full", "async_class_asend",
-                  "async_class_future", "async_class_proxy", "async_class_lazy", "async_iterable", "async_class_lateclose", "async_class_delegating", "async_class_plainnext", "async_class_eagerstart")
+                  "async_class_future", "async_class_proxy", "async_class_lazy", "async_iterable", "async_class_lateclose", "async_class_delegating", "async_class_plainnext", "async_class_eagerstart", "async_class_bare_full")
 FLAVOURS = FLAVOURS_SYNC + FLAVOURS_ASYNC
 
 
@@ -694,6 +716,8 @@ def make_source(st: SrcState, flavour: str) -> Any:
         return AsyncSrcBare(st)
     if flavour == "async_class_full":
         return AsyncSrcFull(st)
+    if flavour == "async_class_bare_full":
+        return AsyncSrcBareFull(st)
     if flavour == "async_class_asend":
         return AsyncSrcAsend(st)
     if flavour == "async_class_future":
